@@ -2,11 +2,18 @@ package emit
 
 // op_allocs.go - C15: heap allocations per call, measured with testing.AllocsPerRun on
 // populated values along paths made of struct fields, non-nil pointers and struct-slice
-// indices.   input: <Type>;p;allocs;<leaf|slice>;<path>;<operand>;<value>
+// indices.   input: <Type>;<forms>;allocs;<leaf|read|slice>;<path>;<operand>;<value>
+//
+// <forms> is one argument form or several joined by '+' (p = *T, pp = **T, v = T by value,
+// boxed once outside the measured call): every measurement is repeated with the object
+// handed in in each of the forms; with several forms the blocks are printed as
+// "<form>:<counts>" joined by '|'.  kind leaf measures GetTo, Compare, Length, Capacity,
+// DeepEqual and SetWithBuffer, kind read the same without SetWithBuffer, kind slice Loop.
 
 import (
 	"reflect"
 	"strconv"
+	"strings"
 	"testing"
 
 	"github.com/koykov/inspector"
@@ -14,46 +21,85 @@ import (
 
 type countIter struct{ n int }
 
-func (i *countIter) RequireKey() bool                   { return true }
-func (i *countIter) SetKey(any, inspector.Inspector)    {}
-func (i *countIter) SetVal(any, inspector.Inspector)    {}
-func (i *countIter) Iterate() inspector.LoopCtl         { i.n++; return inspector.LoopCtlNone }
+func (i *countIter) RequireKey() bool                { return true }
+func (i *countIter) SetKey(any, inspector.Inspector) {}
+func (i *countIter) SetVal(any, inspector.Inspector) {}
+func (i *countIter) Iterate() inspector.LoopCtl      { i.n++; return inspector.LoopCtlNone }
 
-func init() {
-	ops["allocs"] = func(ins inspector.Inspector, t reflect.Type, form string, args []string, value string) string {
-		kind, path, operand := args[0], Path(args[1]), string(Path(args[2])[0])
-		a, _ := Arg(t, "p", value)
-		b, _ := Arg(t, "p", value)
-		n := func(f func()) string { return strconv.Itoa(int(testing.AllocsPerRun(10, f))) }
-		if kind == "slice" {
-			// grow the addressed slice to 150 elements (repeating its own elements): long loops must not allocate either
-			if sl, ok := NavNative(reflect.ValueOf(a), path); ok && sl.Kind() == reflect.Slice && sl.CanSet() && sl.Len() > 0 {
+// formArg builds one populated object and returns it in the requested argument form:
+// the *T itself, a **T to it, or the T it points to boxed by value.  prep may modify the
+// object (through the *T) before the forms are derived.
+func formArg(t reflect.Type, form, value string, prep func(pv reflect.Value)) any {
+	a, _ := Arg(t, "p", value)
+	pv := reflect.ValueOf(a)
+	if prep != nil {
+		prep(pv)
+	}
+	switch form {
+	case "p":
+		return a
+	case "pp":
+		ppv := reflect.New(pv.Type())
+		ppv.Elem().Set(pv)
+		return ppv.Interface()
+	case "v":
+		return pv.Elem().Interface()
+	}
+	panic("bad form " + form)
+}
+
+func allocsIn(ins inspector.Inspector, t reflect.Type, form, kind string, path []string, operand, value string) string {
+	n := func(f func()) string { return strconv.Itoa(int(testing.AllocsPerRun(10, f))) }
+	if kind == "slice" {
+		// grow the addressed slice to 150 elements (repeating its own elements): long loops must not allocate either
+		a := formArg(t, form, value, func(pv reflect.Value) {
+			if sl, ok := NavNative(pv, path); ok && sl.Kind() == reflect.Slice && sl.CanSet() && sl.Len() > 0 {
 				big := reflect.MakeSlice(sl.Type(), 150, 150)
 				for i := 0; i < 150; i++ {
 					big.Index(i).Set(sl.Index(i % sl.Len()))
 				}
 				sl.Set(big)
 			}
-			it := &countIter{}
-			buf := make([]byte, 0, 64)
-			return "loop=" + n(func() { _ = ins.Loop(a, it, &buf, path...) })
-		}
-		var out any
-		var res bool
-		var ln int
-		s := "getto=" + n(func() { _ = ins.GetTo(a, &out, path...) })
-		s += ";cmp=" + n(func() { _ = ins.Compare(a, inspector.OpEq, operand, &res, path...) })
-		s += ";len=" + n(func() { _ = ins.Length(a, &ln, path...) })
-		s += ";cap=" + n(func() { _ = ins.Capacity(a, &ln, path...) })
-		s += ";deq=" + n(func() { _ = ins.DeepEqual(a, b) })
-		// SetWithBuffer of the element's own value (boxed once, outside the measurement) into a pre-sized buffer
-		if leaf, ok := NavNative(reflect.ValueOf(b), path); ok {
-			boxed := leaf.Interface()
-			bb := inspector.NewByteBuffer(4096)
-			s += ";set=" + n(func() { bb.Reset(); _ = ins.SetWithBuffer(a, boxed, bb, path...) })
-		} else {
-			s += ";set=?"
-		}
+		})
+		it := &countIter{}
+		buf := make([]byte, 0, 64)
+		return "loop=" + n(func() { _ = ins.Loop(a, it, &buf, path...) })
+	}
+	a := formArg(t, form, value, nil)
+	b := formArg(t, form, value, nil)
+	var out any
+	var res bool
+	var ln int
+	s := "getto=" + n(func() { _ = ins.GetTo(a, &out, path...) })
+	s += ";cmp=" + n(func() { _ = ins.Compare(a, inspector.OpEq, operand, &res, path...) })
+	s += ";len=" + n(func() { _ = ins.Length(a, &ln, path...) })
+	s += ";cap=" + n(func() { _ = ins.Capacity(a, &ln, path...) })
+	s += ";deq=" + n(func() { _ = ins.DeepEqual(a, b) })
+	if kind == "read" {
 		return s
+	}
+	// SetWithBuffer of the element's own value (boxed once, outside the measurement) into a pre-sized buffer
+	if leaf, ok := NavNative(reflect.ValueOf(b), path); ok {
+		boxed := leaf.Interface()
+		bb := inspector.NewByteBuffer(4096)
+		s += ";set=" + n(func() { bb.Reset(); _ = ins.SetWithBuffer(a, boxed, bb, path...) })
+	} else {
+		s += ";set=?"
+	}
+	return s
+}
+
+func init() {
+	ops["allocs"] = func(ins inspector.Inspector, t reflect.Type, form string, args []string, value string) string {
+		kind, path, operand := args[0], Path(args[1]), string(Path(args[2])[0])
+		forms := strings.Split(form, "+")
+		if len(forms) == 1 {
+			return allocsIn(ins, t, form, kind, path, operand, value)
+		}
+		out := make([]string, len(forms))
+		for i, f := range forms {
+			out[i] = f + ":" + allocsIn(ins, t, f, kind, path, operand, value)
+		}
+		return strings.Join(out, "|")
 	}
 }
